@@ -55,6 +55,14 @@ class Undecided(Exception):
     pass
 
 
+def mk_okval(r):
+    """Payload of `r?` / unwrap: folds Ok(x)? and Some(x)? immediately."""
+    if isinstance(r, tuple) and r and r[0] == "agg" and r[2] in ("Ok", "Some") and len(r[3]) == 1 \
+            and r[1] in ("std::result::Result", "std::option::Option"):
+        return r[3][0]
+    return ("okval", r)
+
+
 def fn_names(fn):
     return [x for x in (fn.get("res_full"), fn.get("res"), fn.get("full"), fn.get("def")) if x]
 
@@ -134,6 +142,14 @@ class Ctx:
         self.notes = []
         self.arrlen = {}
         self.noinline = []          # extra regexes of callees that must stay opaque calls
+        self.reader = False         # reader mode: applications of nom parser values become events
+        self.napply = 0
+        self.log_calls = None       # regex: calls whose (name, args, site) are appended to self.calls
+        self.calls = []
+
+    def apply_id(self):
+        self.napply += 1
+        return self.napply
 
     def loop_id(self):
         self.nloop += 1
@@ -233,7 +249,7 @@ class Interp:
             if "static" in op:
                 return ("static", op["static"])
             if op.get("promoted"):
-                pid = re.sub(r"::<[^<>]*>::promoted", "::promoted", op.get("s") or "")
+                pid = re.sub(r"::<[^<>]*>", "", op.get("s") or "")
                 pb = self.facts.bodies.get(pid) or self.facts.bodies.get(op.get("s") or "")
                 if pb is not None and self.depth < 8:
                     try:
@@ -304,7 +320,7 @@ class Interp:
                 return ("c", 0, None)      # overflow flag of a checked op: false on every non-panicking path
         if k == "branch":
             if p[0] == "@Continue" and len(p) >= 2 and p[1] == ".0":
-                return self.proj(("okval", e[1]), p[2:])
+                return self.proj(mk_okval(e[1]), p[2:])
             return ("?", "branch-proj")
         if k == "next":
             if p[0] == "@Some" and len(p) >= 2 and p[1] == ".0":
@@ -437,7 +453,7 @@ class Interp:
         if name == "branch" and trait == "std::ops::Try":
             return ("branch", args[0])
         if fn_is(fn, OKVAL):
-            return ("okval", args[0])
+            return mk_okval(args[0])
         if name == "with" and re.search(r"LocalKey", full) and len(args) == 2:
             clo = args[1]
             key = args[0]
@@ -446,8 +462,22 @@ class Interp:
             clo = args[0]
             tup = args[1]
             if tup[0] == "agg" and tup[1] == "tuple":
+                if self.ctx.reader:
+                    return self.apply_parser(clo, list(tup[3]), ev, site)
                 return self.inline_closure(clo, list(tup[3]), ev, site)
             raise Undecided("closure call with untupled arguments at %s" % site)
+        if self.ctx.log_calls and re.search(self.ctx.log_calls, full):
+            self.ctx.calls.append((full, tuple(args), site, self.body.id))
+        if self.ctx.reader and re.match(r"^nom::number::(streaming|complete)::be_u(8|16|24|32|64)$", fn["def"]):
+            aid = self.ctx.apply_id()
+            ev.append(("apply", ("fn", fn["def"]), site, aid))
+            return ("applied", aid, ("fn", fn["def"]))
+        if self.ctx.reader and fn["def"].startswith("component::parser::") and fn["def"] in self.facts.bodies \
+                and re.match(r"^std::result::Result<\(.*nom::Err<", t.get("dty") or ""):
+            aid = self.ctx.apply_id()
+            pe = ("call", fn["def"], tuple(args[1:]) if False else tuple(args), ())
+            ev.append(("apply", pe, site, aid))
+            return ("applied", aid, pe)
         if name == "map_or_else" and re.search(r"Option", full) and len(args) == 3:
             none_v = self.inline_closure(args[1], [], ev, site, pure=True)
             some_v = self.inline_closure(args[2], [self.proj(args[0], ["@Some", ".0"])], ev, site, pure=True)
@@ -525,6 +555,70 @@ class Interp:
             return sub.retval
         except Undecided:
             return None
+
+    def apply_parser(self, pexpr, params, ev, site):
+        """Reader mode: `parser(input)`.  Local closures are inlined; nom combinators are unwrapped; primitive parsers
+        become ('apply', parser, site) events."""
+        p = strip_casts(pexpr)
+        wraps = []
+        while isinstance(p, tuple) and p[0] == "call" and re.match(
+                r"^nom::combinator::(map|verify|into|map_res|map_opt|complete|cut|opt)\b", p[1]) and p[2]:
+            wraps.append((p[1].split("::<")[0].rsplit("::", 1)[1], p[2][1] if len(p[2]) > 1 else None))
+            p = strip_casts(p[2][0])
+        for w, _f in wraps:
+            if w in ("opt", "complete", "cut", "map_res", "map_opt"):
+                ev.append(("wrap", w, site))
+        maps = [f for w, f in wraps if w == "map" and f is not None]
+        if maps:
+            inner = self.apply_parser(p, params, ev, site)
+            rest = self.proj(mk_okval(inner), [".0"])
+            o = self.proj(mk_okval(inner), [".1"])
+            for f in reversed(maps):
+                f = strip_casts(f)
+                if isinstance(f, tuple) and f[0] == "closure":
+                    o = self.inline_closure(f, [o], ev, site)
+                elif isinstance(f, tuple) and f[0] == "fn":
+                    nm = re.sub(r"::<.*$", "", str(f[1]))
+                    adt, _, var = nm.rpartition("::")
+                    if adt in self.facts.adts and any(v["name"] == var for v in self.facts.adts[adt]["variants"]):
+                        o = ("agg", adt, var, (o,))
+                    else:
+                        o = ("call", nm, (o,), ())
+                else:
+                    o = ("call", "<map-fn>", (f, o), ())
+            return ("agg", "std::result::Result", "Ok", (("agg", "tuple", None, (rest, o)),))
+        if isinstance(p, tuple) and p[0] == "closure":
+            return self.inline_closure(p, params, ev, site)
+        if isinstance(p, tuple) and p[0] == "call":
+            nm = p[1].split("::<")[0]
+            if nm == "nom::bits" or nm == "nom::bits::bits":
+                sub = []
+                v = self.apply_parser(p[2][0], [("bitinput",)], sub, site)
+                ev.append(("bitsblock", sub, site))
+                return v
+            if re.match(r"^nom::multi::many_m_n$", nm) and len(p[2]) == 3:
+                sub = []
+                self.apply_parser(p[2][2], [("loopinput",)], sub, site)
+                ev.append(("rloop", p[2][0], p[2][1], sub, site))
+                return ("applied", self.ctx.apply_id(), p)
+            if re.match(r"^nom::multi::(many0|many1|many_till|many0_count|many1_count|fold_many0)$", nm):
+                sub = []
+                self.apply_parser(p[2][0], [("loopinput",)], sub, site)
+                ev.append(("rmany", nm.rsplit("::", 1)[1], sub, tuple(p[2][1:]), site))
+                return ("applied", self.ctx.apply_id(), p)
+            if re.match(r"^nom::branch::alt$", nm) and p[2]:
+                alts = p[2][0]
+                arms = []
+                if isinstance(alts, tuple) and alts[0] == "agg":
+                    for a in alts[3]:
+                        sub = []
+                        self.apply_parser(a, [("altinput",)], sub, site)
+                        arms.append(sub)
+                ev.append(("ralt", arms, site))
+                return ("applied", self.ctx.apply_id(), p)
+        aid = self.ctx.apply_id()
+        ev.append(("apply", p, site, aid))
+        return ("applied", aid, p)
 
     def inline_closure(self, clo, params, ev, site, pure=False):
         clo = strip_casts(clo)
@@ -781,8 +875,26 @@ class Interp:
             c = strip_casts(cond)
             if not (isinstance(c, tuple) and c[0] == "bin" and c[1] == "Lt" and isinstance(c[2], tuple)
                     and c[2][0] == "lc" and c[2][1] == lid):
-                raise Undecided("while loop at bb%d of %s: condition %s is not `induction variable < bound`"
-                                % (h, b.id, show(cond)))
+                if not self.ctx.reader:
+                    raise Undecided("while loop at bb%d of %s: condition %s is not `induction variable < bound`"
+                                    % (h, b.id, show(cond)))
+                # reader mode: an open-ended loop (e.g. `while !is_last`); body events are recorded once
+                self.ctx.nmark = save_marks
+                self.env = dict(pre_env)
+                for l in carried:
+                    self.env[l] = ("?", "loop-carried _%d" % l)
+                pev = []
+                for cx in chain:
+                    self.exec_block_stmts(cx)
+                    if b.term(cx)["k"] == "call":
+                        self.exec_term(cx, pev)
+                self.seq(body_b, h, pev)
+                ev.append(("loop", ("while", lid, cond), pev))
+                self.env = dict(pre_env)
+                for l in carried:
+                    self.env[l] = ("?", "after-loop _%d" % l)
+                self.veclen = pre_vl
+                return exit_b
             ivl = c[2][2]
             bound = c[3]
             if mentions(bound, lambda e: isinstance(e, tuple) and len(e) > 1 and e[0] == "lc" and e[1] == lid):
@@ -948,6 +1060,8 @@ def show(e):
         return "fn " + str(e[1])
     if k == "static":
         return "static " + str(e[1])
+    if k == "applied":
+        return "read#%d" % e[1]
     return str(e)
 
 
@@ -1058,6 +1172,15 @@ def evalv(e, env, facts):
         return evalc(("bin", e[1], C(a), C(b)))
     if k == "ovf":
         return evalv(e[1], env, facts)
+    if k == "okval":
+        v = evalv(e[1], env, facts)
+        if isinstance(v, tuple) and v[0] == "agg" and v[2] in ("Some", "Ok") and v[3]:
+            return v[3][0]
+        return None
+    if k in env:
+        return env[k]
+    if e in env:
+        return env[e]
     if k == "call" and re.search(r"leading_zeros$", e[1]) and len(e[2]) == 1:
         v = evalv(e[2][0], env, facts)
         if not isinstance(v, int):
@@ -1121,6 +1244,22 @@ def _vproj(v, p):
     return v
 
 
+def reads_of(e):
+    """Ids of parser applications an expression depends on directly (not those nested inside a parser's own argument)."""
+    out = set()
+
+    def go(x):
+        if isinstance(x, tuple) and x:
+            if x[0] == "applied" and len(x) > 1:
+                out.add(x[1])
+                return
+            for y in x:
+                if isinstance(y, tuple):
+                    go(y)
+    go(e)
+    return sorted(out)
+
+
 def walk_expr(e):
     """All tuple sub-expressions (pre-order), descending through argument tuples."""
     if isinstance(e, tuple) and e:
@@ -1133,6 +1272,8 @@ def walk_expr(e):
 
 
 def show_desc(d):
+    if d[0] == "while":
+        return "#L%d while %s" % (d[1], show(d[2])[:80])
     if d[0] == "range":
         return "#L%d in %s..%s" % (d[1], show(d[2]), show(d[3]))
     return "#L%d in %s" % (d[1], show(d[2]))
@@ -1177,6 +1318,8 @@ def canon(e):
         return "storage(%s)" % e[1]
     if k == "static":
         return "static(%s)" % e[1]
+    if k == "applied":
+        return "read#%d" % e[1]
     if k in ("iter", "collect", "itersum"):
         return "%s(%s)" % (k, canon(e[1]))
     if k == "map":
